@@ -227,6 +227,43 @@ theorem strictMonoOn_of_sums (tbl : List (List Term3)) (a : Int) (cA cG : List I
     rw [e1, e2]
     exact hb
 
+/-- The derivative of the longitude series of a generated table differs from the secular rate `a` by at most
+    the triangle-inequality bound, for `|t| ≤ T`. -/
+theorem deriv_bounds_of_sums (tbl : List (List Term3)) (a : Int) (cA cG : List Int) (T β : ℝ)
+    (hlead : (tbl.getD 1 []).head? = some (a, 0, 0))
+    (hA : tbl.map sumAbsA = cA) (hG : tbl.map sumAbsAC = cG)
+    (hb : bSums T 0 (subAt1 cA a) cG ≤ β) (t : ℝ) (ht : |t| ≤ T) :
+    ∃ d, HasDerivAt (Spec.directSum (vsopOfScaled tbl)) d t ∧ |d - (a : ℝ) / 10 ^ expA| ≤ β := by
+  match tbl, hlead with
+  | s0 :: (x :: s1) :: rest, hlead =>
+    have hx : x = (a, 0, 0) := by simpa using hlead
+    subst hx
+    have htab : vsopOfScaled (s0 :: ((a, 0, 0) :: s1) :: rest) =
+        s0.map termOfScaled :: (((a : ℝ) / 10 ^ expA, 0, 0) :: s1.map termOfScaled) :: vsopOfScaled rest := by
+      simp [vsopOfScaled, termOfScaled, numOfScaled]
+    have h2 : (s0.map termOfScaled :: s1.map termOfScaled :: vsopOfScaled rest) = vsopOfScaled (s0 :: s1 :: rest) := by
+      simp [vsopOfScaled]
+    have e1 : (s0 :: s1 :: rest).map sumAbsA = subAt1 cA a := by
+      rw [← hA]; simp [subAt1, sumAbsA]
+    have e2 : (s0 :: s1 :: rest).map sumAbsAC = cG := by
+      rw [← hG]; simp [sumAbsAC]
+    set A : ℝ := (a : ℝ) / 10 ^ expA with hAdef
+    set L' := s0.map termOfScaled :: s1.map termOfScaled :: vsopOfScaled rest with hL'
+    have hfun : Spec.directSum (vsopOfScaled (s0 :: ((a, 0, 0) :: s1) :: rest)) = fun t => A * t + eFrom t 0 L' := by
+      funext t; rw [htab, directSum_lead, directSum_eq_eFrom]
+    have hd : HasDerivAt (fun t => A * t + eFrom t 0 L') (A + dFrom t 0 L') t := by
+      have h := ((hasDerivAt_id t).const_mul A).add (hasDerivAt_eFrom L' 0 t)
+      have hf : (fun t => A * t + eFrom t 0 L') = (fun y => A * id y) + fun t => eFrom t 0 L' := by
+        funext t; simp
+      rw [hf]
+      simpa using h
+    refine ⟨A + dFrom t 0 L', by rw [hfun]; exact hd, ?_⟩
+    have hbd := abs_dFrom_le L' 0 t T ht
+    have hbf : bFrom T 0 L' = bSums T 0 (subAt1 cA a) cG := by rw [h2, bFrom_scaled, e1, e2]
+    have : A + dFrom t 0 L' - A = dFrom t 0 L' := by ring
+    rw [this]
+    exact (hbd.trans (le_of_eq hbf)).trans hb
+
 /-! ### numerical lemmas for the per-planet constants -/
 
 lemma leadAmp_scaled (tbl : List (List Term3)) (a b c : Int) (h : (tbl.getD 1 []).head? = some (a, b, c)) :
